@@ -22,6 +22,7 @@ BENIGN_PROPS = {
     "B3": ["C02", "C04", "C05", "C01", "C11", "C12", "C13"],
     "B4": ["C08", "C09", "C10", "C11", "C19"],
     "B5": ["C12", "C13", "C19", "C04"],
+    "B7": ["C15", "C06", "C14", "C04", "C03", "C05"],
 }
 
 
